@@ -13,8 +13,10 @@ import (
 	"github.com/flant/kube-client/fake"
 	objectpatch "github.com/flant/shell-operator/pkg/kube/object_patch"
 	"gopkg.in/yaml.v3"
+	apierrors "k8s.io/apimachinery/pkg/api/errors"
 	metav1 "k8s.io/apimachinery/pkg/apis/meta/v1"
 	"k8s.io/apimachinery/pkg/apis/meta/v1/unstructured"
+	"k8s.io/apimachinery/pkg/runtime"
 	"k8s.io/apimachinery/pkg/runtime/schema"
 	dynfake "k8s.io/client-go/dynamic/fake"
 	clienttesting "k8s.io/client-go/testing"
@@ -50,6 +52,10 @@ type InitObj struct {
 type Case struct {
 	Initial []InitObj `json:"initial"`
 	Docs    []Doc     `json:"docs"`
+	// Conflicts: the API server answers the first n Update requests with 409 Conflict (another writer changed the
+	// object between the operation's Get and its Update); the operations that update (CreateOrUpdate, JQPatch) read
+	// the object again and repeat
+	Conflicts int `json:"conflicts,omitempty"`
 }
 
 var widgetGVR = schema.GroupVersionResource{Group: "example.com", Version: "v1", Resource: "widgets"}
@@ -170,6 +176,7 @@ func gen(t *rapid.T) Case {
 		}
 		c.Docs = append(c.Docs, d)
 	}
+	c.Conflicts = rapid.SampledFrom([]int{0, 0, 0, 1, 1, 2}).Draw(t, "conflicts")
 	if rapid.IntRange(0, 3).Draw(t, "invalid") == 0 {
 		i := rapid.IntRange(0, len(c.Docs)-1).Draw(t, "ipos")
 		c.Docs[i].Fault = rapid.SampledFrom([]string{"unknown-operation", "missing-name", "missing-kind", "missing-object", "empty-patch", "no-operation"}).Draw(t, "fault")
@@ -486,6 +493,7 @@ func nActions(fc *fake.Cluster) int {
 }
 
 type result struct {
+	conflicts int
 	parseErr bool
 	execErr  bool
 	state    map[string]string
@@ -499,6 +507,24 @@ func execute(c Case, format string) (result, error) {
 	if err != nil {
 		return r, fmt.Errorf("harness: %v", err)
 	}
+	conflictsServed := 0
+	if fd, ok := fc.Client.Dynamic().(*dynfake.FakeDynamicClient); ok && c.Conflicts > 0 {
+		left := c.Conflicts
+		fd.PrependReactor("update", "*", func(a clienttesting.Action) (bool, runtime.Object, error) {
+			if left > 0 {
+				left--
+				conflictsServed++
+				name := ""
+				if ua, ok := a.(clienttesting.UpdateAction); ok {
+					if u, ok := ua.GetObject().(*unstructured.Unstructured); ok {
+						name = u.GetName()
+					}
+				}
+				return true, nil, apierrors.NewConflict(a.GetResource().GroupResource(), name, fmt.Errorf("the object has been modified; please apply your changes to the latest version and try again"))
+			}
+			return false, nil, nil
+		})
+	}
 	from := nActions(fc)
 	ops, perr := objectpatch.ParseOperations(render(c.Docs, format))
 	if perr != nil {
@@ -511,6 +537,7 @@ func execute(c Case, format string) (result, error) {
 		}
 	}
 	r.actions = actions(fc, from)
+	r.conflicts = conflictsServed
 	r.state, err = dump(fc)
 	if err != nil {
 		return r, fmt.Errorf("harness: %v", err)
@@ -611,6 +638,10 @@ func runCase(c Case) (ev.Info, error) {
 		if d := diffState(r.state, want); d != "" {
 			return info, fmt.Errorf("%s: cluster after applying the stream differs from the reference: %s", f, d)
 		}
+		if r.conflicts > 0 && f == formats[0] {
+			info.Labels = append(info.Labels, "update-answered-with-conflict")
+			info.NonTrivial = true
+		}
 		if r.execErr != wantErr {
 			return info, fmt.Errorf("%s: ExecuteOperations error=%v, reference expects error=%v", f, r.execErr, wantErr)
 		}
@@ -644,7 +675,7 @@ func runCase(c Case) (ev.Info, error) {
 	return info, nil
 }
 
-const rule = "streams of 1-6 operation documents (three create variants with the object inline, as JSON string or as YAML string; three delete modes; MergePatch/JSONPatch inline or as a string of JSON, block-style YAML or flow-style YAML; JQPatch; subresource; ignoreMissingObject) over ConfigMaps and a CRD kind in 2 namespaces with a generated initial state; each stream rendered as concatenated JSON, indented JSON documents, ----separated YAML and ----separated YAML whose first document is written in JSON style and executed on identical fake clusters: final states equal a reference model (RFC 7386 merge, add/replace/remove JSON patch, jq), error/no-error equals the reference, client actions identical across renderings, one primary API call per document; 1 in 4 streams has one invalid document at a generated position: rejected in every rendering, cluster unchanged. Non-trivial: >= 2 operations touch the same object, or an invalid stream."
+const rule = "streams of 1-6 operation documents (three create variants with the object inline, as JSON string or as YAML string; three delete modes; MergePatch/JSONPatch inline or as a string of JSON, block-style YAML or flow-style YAML; JQPatch; subresource; ignoreMissingObject) over ConfigMaps and a CRD kind in 2 namespaces with a generated initial state; each stream rendered as concatenated JSON, indented JSON documents, ----separated YAML and ----separated YAML whose first document is written in JSON style and executed on identical fake clusters: final states equal a reference model (RFC 7386 merge, add/replace/remove JSON patch, jq), error/no-error equals the reference, client actions identical across renderings, one primary API call per document; in half of the cases the API server answers the first 1-2 Update requests with 409 Conflict (a concurrent writer): the updating operations (CreateOrUpdate, JQPatch) must read again and repeat, final state and error/no-error as without the conflict; 1 in 4 streams has one invalid document at a generated position: rejected in every rendering, cluster unchanged. Non-trivial: >= 2 operations touch the same object, or an invalid stream."
 
 func TestPatch(t *testing.T) {
 	ev.Main(t, ev.Spec[Case]{Property: "C13", Part: "patch", Rule: rule, Gen: gen, Run: runCase})
